@@ -500,7 +500,7 @@ func (in *labInst) settle(send func([]byte) error, min int) ([]labRx, error) {
 	}
 	var out []labRx
 	seen := false
-	nmsg := 0 // receptions that carry a message (connection-closed events do not count towards min)
+	nmsg := 0                               // receptions that carry a message (connection-closed events do not count towards min)
 	budget := newPatience(20 * time.Second) // running time: a frozen sandbox does not use it up
 	for !seen || nmsg < min {
 		if budget.left <= 0 {
